@@ -538,7 +538,7 @@ def _trace_select_text(p, mod, sp, e, at, chain, depth):
             return None, 'the select fragment passes through {}(), whose effect on the list-display wrapper is not known'.format(nm)
         return None, 'select fragment comes from `{}`'.format(node_text(e, 60))
     if isinstance(e, ast.Name):
-        defs = [n for n in walk_no_nested(sp) if isinstance(n, ast.Assign) and any(e.id in _tnames(t) for t in n.targets) and n.lineno < at.lineno]
+        defs = [n for n in walk_no_nested(sp) if isinstance(n, ast.Assign) and n is not at and any(e.id in _tnames(t) for t in n.targets) and (n.lineno < at.lineno or e.id.startswith('__'))]
         if not defs:
             return None, 'no definition of `{}`'.format(e.id)
         results = []
@@ -565,6 +565,8 @@ def _trace_select_text(p, mod, sp, e, at, chain, depth):
         if unk:
             return unk[0]
         return True, ' / '.join(sorted({r[1] for r in results}))
+    if isinstance(e, ast.Subscript) and isinstance(e.slice, ast.Slice):
+        return False, 'the select fragment is cut by slicing (`{}`): the list display that makes `select *` / `a.*` evaluate to a fresh list can be stripped, so output records alias input rows'.format(node_text(e, 60))
     if isinstance(e, ast.Constant) and isinstance(e.value, str):
         t = e.value.strip()
         if (t.startswith('[') and t.endswith(']')) or t.startswith('[].concat('):
